@@ -218,6 +218,7 @@ PAIRS_WARM = [
     (("remove", "k"), ("read", "k")), (("remove", "k"), ("remove", "k")), (("remove", "k"), ("list",)),
     (("remove_hash", "W"), ("read", "k")), (("remove_hash", "W"), ("exists", "W")), (("remove_hash", "W"), ("read_hash", "W")),
     (("write_hash", "A"), ("write_hash", "A")), (("write_hash", "A"), ("read_hash", "A")), (("write_hash", "W"), ("remove_hash", "W")),
+    (("write", "j", "A"), ("write", "j", "B")),        # two writers of a key whose bucket directories do not exist yet
 ]
 PAIRS_COLD = [
     (W_kA, W_kB), (W_kA, W_jA), (W_kA, W_kA), (W_kA, ("read", "k")), (W_kA, ("list",)), (W_kA, ("remove", "k")),
@@ -246,7 +247,7 @@ def tasks(tier, flavours):
                 for ops in [PAIRS_COLD[3], PAIRS_COLD[4], PAIRS_COLD[5], PAIRS_COLD[6], PAIRS_COLD[7]]:
                     add(fl, ops, False)
             else:
-                pick = (0, 3, 6, 9, 12, 15, 18) if fl == "tokio" else (0, 1, 4, 6, 7, 10, 13, 16)
+                pick = (0, 3, 6, 9, 12, 15, 18, 19) if fl == "tokio" else (0, 1, 4, 6, 7, 10, 13, 16, 19)
                 for i in pick:
                     add(fl, PAIRS_WARM[i], True)
                 add(fl, PAIRS_COLD[3], False)
